@@ -521,6 +521,9 @@ impl Engine for C13 {
                "runs": sc.runs.iter().map(|r| json!({"today": r.today, "published_today": r.published_today, "force": r.force, "path": if r.app_path {"application"} else {"direct"}, "lookups": r.lookups,
                     "net_faults": r.net_faults.iter().filter(|f| f.is_some()).count(), "fs_faults": if r.fs_faults.is_none() { json!(null) } else { json!(r.fs_faults) }})).collect::<Vec<_>>() })
     }
+    fn hang_or_death_is_violation(&self) -> bool {
+        true
+    }
     fn level(&self) -> &'static str {
         "exploration"
     }
